@@ -245,6 +245,152 @@ theorem verifyWithRetry_ok_iff (sha1 : Bool) (salt : Bytes) (it : Int) (digest m
     · simp [hp]
     · simp [hp]
 
+/-! ## the DER walk of the Lean reader -/
+
+/-- what a successful `tlv` returns, by length form -/
+theorem tlv_cases {bs : Bytes} {t : UInt8} {c rest : Bytes} (h : tlv bs = some (t, c, rest)) :
+    ∃ l r, bs = t :: l :: r ∧
+      ((l < 0x80 ∧ l.toNat ≤ r.length ∧ c = r.take l.toNat ∧ rest = r.drop l.toNat) ∨
+       (¬ l < 0x80 ∧ l.toNat - 0x80 ≤ r.length ∧
+          natOfBE (r.take (l.toNat - 0x80)) ≤ (r.drop (l.toNat - 0x80)).length ∧
+          c = (r.drop (l.toNat - 0x80)).take (natOfBE (r.take (l.toNat - 0x80))) ∧
+          rest = (r.drop (l.toNat - 0x80)).drop (natOfBE (r.take (l.toNat - 0x80))))) := by
+  match bs with
+  | [] => simp [tlv] at h
+  | [_] => simp [tlv] at h
+  | tag :: l :: r =>
+    simp only [tlv] at h
+    by_cases ht : tag &&& 0x1f = 0x1f
+    · rw [if_pos ht] at h; cases h
+    rw [if_neg ht] at h
+    by_cases hl : l < 0x80
+    · rw [if_pos hl] at h
+      by_cases h2 : r.length < l.toNat
+      · rw [if_pos h2] at h; cases h
+      · rw [if_neg h2] at h
+        simp only [Option.some.injEq, Prod.mk.injEq] at h
+        obtain ⟨rfl, rfl, rfl⟩ := h
+        exact ⟨l, r, rfl, Or.inl ⟨hl, by omega, rfl, rfl⟩⟩
+    · rw [if_neg hl] at h
+      by_cases h2 : l.toNat - 0x80 = 0 ∨ l.toNat - 0x80 > 4 ∨ r.length < l.toNat - 0x80
+      · rw [if_pos h2] at h; cases h
+      · rw [if_neg h2] at h
+        by_cases h3 : (r.drop (l.toNat - 0x80)).length < natOfBE (r.take (l.toNat - 0x80))
+        · rw [if_pos h3] at h; cases h
+        · rw [if_neg h3] at h
+          simp only [Option.some.injEq, Prod.mk.injEq] at h
+          obtain ⟨rfl, rfl, rfl⟩ := h
+          exact ⟨l, r, rfl, Or.inr ⟨hl, by omega, by omega, rfl, rfl⟩⟩
+
+/-- a TLV read consumes at least the two header bytes: contents and rest are strictly shorter
+    than the input (this is what makes `tlvs` with fuel = length complete) -/
+theorem tlv_progress {bs : Bytes} {t : UInt8} {c rest : Bytes} (h : tlv bs = some (t, c, rest)) :
+    c.length + rest.length + 2 ≤ bs.length := by
+  obtain ⟨l, r, rfl, h | h⟩ := tlv_cases h
+  · obtain ⟨_, h1, hc, hr⟩ := h
+    rw [hc, hr]
+    simp only [List.length_take, List.length_drop, List.length_cons]; omega
+  · obtain ⟨_, h1, h2, hc, hr⟩ := h
+    rw [hc, hr]
+    simp only [List.length_take, List.length_drop, List.length_cons] at h2 ⊢; omega
+
+/-- header ++ contents ++ rest is the input: the walk never invents or skips bytes -/
+theorem tlv_suffix {bs : Bytes} {t : UInt8} {c rest : Bytes} (h : tlv bs = some (t, c, rest)) :
+    ∃ hdr, bs = hdr ++ c ++ rest := by
+  obtain ⟨l, r, rfl, h | h⟩ := tlv_cases h
+  · obtain ⟨_, _, hc, hr⟩ := h
+    exact ⟨[t, l], by rw [hc, hr]; simp⟩
+  · obtain ⟨_, _, _, hc, hr⟩ := h
+    exact ⟨t :: l :: r.take (l.toNat - 0x80), by
+      rw [hc, hr]
+      simp only [List.cons_append, List.append_assoc, List.take_append_drop]⟩
+
+theorem tlvs_fuel_eq : ∀ (f1 f2 : Nat) (bs : Bytes), bs.length ≤ f1 → bs.length ≤ f2 → tlvs f1 bs = tlvs f2 bs := by
+  intro f1
+  induction f1 with
+  | zero =>
+    intro f2 bs h _
+    have : bs = [] := List.eq_nil_of_length_eq_zero (by omega)
+    subst this
+    cases f2 <;> rfl
+  | succ f ih =>
+    intro f2 bs h1 h2
+    cases bs with
+    | nil => cases f2 <;> rfl
+    | cons b tl =>
+      cases f2 with
+      | zero => simp at h2
+      | succ g =>
+        simp only [tlvs, List.isEmpty_cons, Bool.false_eq_true, if_false]
+        cases ht : tlv (b :: tl) with
+        | none => rfl
+        | some r =>
+          obtain ⟨t, c, rest⟩ := r
+          have hp := tlv_progress ht
+          simp only [List.length_cons] at hp h1 h2
+          simp only
+          rw [ih g rest (by omega) (by omega)]
+
+/-- **der_walk_total.** `tlvs` is structurally recursive on its fuel, and fuel = input length is
+    always enough: more fuel never changes the answer. So `children bs = none` means a malformed TLV
+    (bad length form, contents longer than the input), never an exhausted budget. -/
+theorem tlvs_fuel_irrelevant (fuel : Nat) (bs : Bytes) (h : bs.length ≤ fuel) : tlvs fuel bs = tlvs bs.length bs :=
+  tlvs_fuel_eq fuel bs.length bs h (Nat.le_refl _)
+
+theorem children_eq (fuel : Nat) (bs : Bytes) (h : bs.length ≤ fuel) : tlvs fuel bs = children bs :=
+  tlvs_fuel_irrelevant fuel bs h
+
+/-! ## the reader's MAC decision is verifyMac -/
+
+/-- **reader_mac_decision.** The reader reports a verified MAC exactly when the password encodes,
+    the outer structure is the known one with version 3 and a `data` authSafe, and `verifyWithRetry`
+    — hence `verifyMac_ok_iff` — says ok on the fields the DER walk extracted. -/
+theorem openPfx_macOk_iff (file : Bytes) (rs : List Nat) (pw' : Bytes) :
+    openPfx file rs = some (.macOk pw') ↔
+      ∃ pw m, bmpString rs = some pw ∧ parsePfxMac file = some m ∧ m.version = 3 ∧ m.authSafeIsData = true ∧
+        verifyWithRetry m.oidIsSha1 m.salt m.iterations m.digest m.content pw = (.ok, pw') := by
+  unfold openPfx
+  cases hb : bmpString rs with
+  | none => simp
+  | some pw =>
+    cases hm : parsePfxMac file with
+    | none => simp
+    | some m =>
+      simp only
+      constructor
+      · intro h
+        by_cases hc : m.version ≠ 3 ∨ (!m.authSafeIsData) = true
+        · rw [if_pos hc] at h; cases h
+        · rw [if_neg hc] at h
+          have h1 : m.version = 3 := Classical.not_not.mp (fun hn => hc (Or.inl hn))
+          have h2 : m.authSafeIsData = true := by
+            cases hh : m.authSafeIsData with
+            | true => rfl
+            | false => exact absurd (Or.inr (by simp [hh])) hc
+          refine ⟨pw, m, rfl, rfl, h1, h2, ?_⟩
+          cases hv : verifyWithRetry m.oidIsSha1 m.salt m.iterations m.digest m.content pw with
+          | mk r p =>
+            rw [hv] at h
+            cases r <;> simp at h
+            rw [h]
+      · rintro ⟨pw1, m1, e1, e2, h1, h2, hv⟩
+        cases e1; cases e2
+        rw [if_neg (by simp [h1, h2]), hv]
+
+/-- **MAC binding.** If the reader accepts the MAC, the stored digest is HMAC-SHA1 — under the key
+    derived (ID 3) from the password it will use for the bags — of exactly the bytes it will parse as
+    the authenticated safe, with SHA-1 named and the iteration count within 0..2^20. A corrupted
+    content, salt, count or digest can only be accepted through an HMAC-SHA1 coincidence. -/
+theorem openPfx_mac_binding (file : Bytes) (rs : List Nat) (pw' : Bytes)
+    (h : openPfx file rs = some (.macOk pw')) :
+    ∃ m, parsePfxMac file = some m ∧ m.oidIsSha1 = true ∧ 0 ≤ m.iterations ∧ m.iterations ≤ 2 ^ 20 ∧
+      m.digest = Prim.hmacSha1 (pbkdf m.salt pw' m.iterations.toNat 3 20) m.content := by
+  obtain ⟨pw, m, _, hm, _, _, hv⟩ := (openPfx_macOk_iff file rs pw').1 h
+  refine ⟨m, hm, ?_⟩
+  rcases (verifyWithRetry_ok_iff _ _ _ _ _ _ _).1 hv with ⟨h1, rfl⟩ | ⟨_, _, h1, rfl⟩
+  · exact (verifyMac_ok_iff _ _ _ _ _ _).1 h1
+  · exact (verifyMac_ok_iff _ _ _ _ _ _).1 h1
+
 /-! ## the container-level statement
 
   `Model/C21_File.lean` is an independent reader (DER walk, MAC, 3DES/RC2-40 CBC with the App. B KDF,
